@@ -19,7 +19,7 @@ func propC13() *fw.Prop {
 		ID: "C13", Level: "exploration",
 		Rule:        "(a) portion texts: exhaustive n/d, n /d, n/ d, n / d for digit strings of length ≤ 2 (thorough ≤ 3) incl. leading zeros with value in [0,1] and d ≠ 0, exhaustive p% and p.q% for |p| ≤ 3, |q| ≤ 2 (thorough 3) with value ≤ 100%, random numerals up to 40 digits; each text is used as a literal and as a portion variable and observed twice: as the value handed to set_tx_meta and as the credits of `send [X d] … {T to @a remaining to @b}` with d a multiple of the reduced denominator; oracle = hand-written base-ten reading. (b) round trips: values of the six types (numbers/monetaries of any sign up to 10^40, accounts and assets of the literal grammar, arbitrary valid-UTF-8 strings, portions) are written by script 1 with set_account_meta and set_tx_meta; script 2 reads the stored text back through a meta()-origin variable and through a plain variable of the same type and re-exports it; values must be identical, the text must be a fixed point, and the JSON of the transaction metadata must decode to the account-metadata text. Distinct = texts whose decimal reading differs from their C-style (octal/hex) reading or that exceed 64 bits, plus all distinct round-tripped values.",
 		Assumptions: []string{trustedBase},
-		Require:     []string{"portion_texts_checked", "texts_where_octal_reading_differs", "round_trips_checked", "exhaustive_spaces_completed", "values_beyond_64_bits"},
+		Require:     []string{"portion_texts_checked", "texts_where_octal_reading_differs", "round_trips_checked", "exhaustive_spaces_completed", "values_beyond_64_bits", "arithmetic_cases"},
 		Run:         runC13,
 	}
 }
@@ -244,6 +244,17 @@ func runC13(c *fw.Ctx) {
 		c.Count("values_beyond_64_bits", 1)
 		c.Distinct("long|" + text)
 	}
+	// ---- (b0) a value used in arithmetic keeps its meaning ----
+	n = c.N(6000, 200000)
+	for i := 0; i < n; i++ {
+		id := "arith/" + itoa(i)
+		if !c.Want(65_000_000+i, id) {
+			continue
+		}
+		if !arithKeeps(c, c.Rng(id), id) {
+			return
+		}
+	}
 	// ---- (b) round trips ----
 	n = c.N(30000, 600000)
 	for i := 0; i < n; i++ {
@@ -255,6 +266,65 @@ func runC13(c *fw.Ctx) {
 			return
 		}
 	}
+}
+
+// arithKeeps: a number / monetary variable written to metadata before and after it was used as an
+// operand of + and − must render the same text both times, and the results must be exact.
+func arithKeeps(c *fw.Ctx, r *rng.R, id string) bool {
+	v, k := randSigned(r), randSigned(r)
+	mon := r.Bool()
+	typ, text, ktxt := "number", v.String(), k.String()
+	var kexpr gen.Expr = &gen.Num{Text: ktxt}
+	if mon {
+		typ, text = "monetary", "USD "+v.String()
+		kexpr = gen.M("USD", ktxt)
+	}
+	meta := func(key string, e gen.Expr) gen.Stmt {
+		return &gen.Call{Name: "set_account_meta", Args: []gen.Expr{gen.A("acc"), gen.S(key), e}}
+	}
+	sc := &gen.Script{Vars: []*gen.VarDecl{{Type: typ, Name: "v"}}, Stmts: []gen.Stmt{
+		meta("before", gen.V("v")),
+		meta("minus", &gen.Infix{Op: '-', L: gen.V("v"), R: kexpr}),
+		meta("plus", &gen.Infix{Op: '+', L: gen.V("v"), R: kexpr}),
+		meta("minus_again", &gen.Infix{Op: '-', L: gen.V("v"), R: gen.CopyExpr(kexpr)}),
+		meta("after", gen.V("v")),
+		&gen.Call{Name: "set_tx_meta", Args: []gen.Expr{gen.S("after"), gen.V("v")}},
+	}}
+	cs := mkCase(sc, map[string]string{"v": text}, nil)
+	o, ok := runCaseText(c, cs)
+	if !ok {
+		return true
+	}
+	input := func() any { d := cs.Describe(); d["outcome"] = o.Summary(); return d }
+	if o.Panicked {
+		c.Violation("panic:"+o.Frame, "panic: "+o.PanicVal, input())
+		return false
+	}
+	if !o.OK() {
+		c.Violation("arith-fails", fmt.Sprintf("arithmetic on a %s variable fails: %v", typ, o.Err), input())
+		return false
+	}
+	pre := ""
+	if mon {
+		pre = "USD "
+	}
+	want := map[string]string{
+		"before": pre + v.String(), "after": pre + v.String(),
+		"minus": pre + new(big.Int).Sub(v, k).String(), "minus_again": pre + new(big.Int).Sub(v, k).String(),
+		"plus": pre + new(big.Int).Add(v, k).String(),
+	}
+	for key, w := range want {
+		got := o.AcctMeta["acc"][key]
+		wv, _ := model.ParseVarText(typ, w)
+		gv, f := model.ParseVarText(typ, got)
+		if f != nil || !model.ValueEqual(wv, gv) {
+			c.Violation("arith-value:"+key, fmt.Sprintf("%s: stored %q, expected the value %q (v = %s, k = %s)", key, got, w, text, ktxt), input())
+			return false
+		}
+	}
+	c.Count("arithmetic_cases", 1)
+	c.Distinct("arith|" + typ + "|" + text + "|" + ktxt)
+	return true
 }
 
 func randDigits(r *rng.R, n int) string {
